@@ -3,7 +3,7 @@ snapshots, run ONE operation as process 'w', observe the table with the independ
 from vf.oracles import reader
 from vf.props.common import SCH
 
-OPS = ["create", "append", "append2", "delete", "replace", "expire", "delsnap_cur", "delsnap_old", "gc"]
+OPS = ["create", "append", "append2", "delete", "replace", "expire", "append_expire", "delsnap_cur", "delsnap_old", "gc"]
 
 
 class Summary:
@@ -92,6 +92,14 @@ def run_op(env, t, op, ctx):
         with t.new_transaction() as tx:
             tx.expire_snapshots(cutoff)
             return tx.commit()
+    if op == "append_expire":
+        # one transaction that appends AND expires: both must become visible with one pointer flip
+        md = t.metadata_manager.refresh()
+        cutoff = md.snapshots[1].timestamp_ms
+        with t.new_transaction() as tx:
+            tx.append_data([{"a": 100}])
+            tx.expire_snapshots(cutoff)
+            return tx.commit()
     if op == "delsnap_cur":
         return t.snapshot_manager.delete_snapshot(t.metadata_manager.refresh().current_snapshot_id)
     if op == "delsnap_old":
@@ -102,7 +110,7 @@ def run_op(env, t, op, ctx):
 
 
 def min_prior(op):
-    return {"create": 0, "append": 0, "append2": 0, "delete": 1, "replace": 1, "expire": 2, "delsnap_cur": 1, "delsnap_old": 2,
+    return {"create": 0, "append": 0, "append2": 0, "delete": 1, "replace": 1, "expire": 2, "append_expire": 2, "delsnap_cur": 1, "delsnap_old": 2,
             "gc": 1}[op]
 
 
@@ -126,6 +134,9 @@ def is_post(pre, obs, op):
             and obs.rows == sorted([r for r in pre.rows if r != 1] + [100])
     if op == "expire":
         return obs.snaps == pre.snaps[1:] and obs.current == pre.current and obs.rows == pre.rows
+    if op == "append_expire":
+        return obs.snaps[:-1] == pre.snaps[1:] and len(obs.snaps) == len(pre.snaps) and obs.current == obs.snaps[-1] \
+            and obs.rows == sorted((pre.rows or []) + [100])
     if op == "delsnap_cur":
         if obs.snaps != pre.snaps[:-1]:
             return False
